@@ -43,6 +43,7 @@ class FnCard:
         self.file, self.path, self.opts = file, path, opts
         self.requires, self.ensures, self.loops, self.hints = [], [], {}, []
         self.sigsubs, self.bodysubs, self.resultmaps = [], [], []
+        self.renames = []
         self.tags = [t for t in opts.get('tags', '').split(',') if t]
         self.mode = opts.get('mode', 'proved')
         self.ret = opts.get('ret')
@@ -181,6 +182,11 @@ def apply_rules(card, sig, body, log):
         for h in hits:
             log.append({'rule': rule_name, 'match': ' '.join(h.split())[:120]})
         body = body2
+    for (a, b) in card.renames:
+        # a `use X as Y` alias of the source file, resolved textually
+        sig = re.sub(r'\b%s\b' % re.escape(a), b, sig)
+        body = re.sub(r'\b%s\b' % re.escape(a), b, body)
+        log.append({'rule': 'X0', 'match': 'use-alias %s => %s' % (a, b)})
     run('X1', R.x1_logging)
     run('X21', R.x21_debug_assert)
     sig, body, hits = R.x2_io_generic(sig, body)
@@ -193,6 +199,7 @@ def apply_rules(card, sig, body, log):
     run('X5', R.x5_then)
     run('X17', R.x17_iter_search)
     run('X8', R.x8_combinators, tuple(card.resultmaps))
+    run('X20', R.x20_take_enumerate)
     run('X16', R.x16_hvec_loops)
     run('X6', R.x6_for_ref)
     run('X19', R.x19_copy_within)
@@ -532,6 +539,8 @@ def generate(repo, template_paths, twin=False):
                 card.sigsubs.append((toks[0], toks[1]))
             elif d == 'bodysub':
                 card.bodysubs.append((toks[0], toks[1], toks[2]))
+            elif d == 'rename':
+                card.renames.append((toks[0], toks[1]))
             elif d == 'resultmap':
                 card.resultmaps.append(toks[0])
             elif d in ('requires', 'ensures'):
